@@ -49,10 +49,13 @@ func (x *XML2sdcpbConfigAdapter) Transform(ctx context.Context, doc *etree.Docum
 
 	for _, e := range doc.Root().ChildElements() {
 		r := &sdcpb.Notification{}
-		err := x.transformRecursive(ctx, e, []*sdcpb.PathElem{}, r, nil)
+		// top-level leaf-lists are collected in the root level context
+		tc := NewTransformationContext([]*sdcpb.PathElem{})
+		err := x.transformRecursive(ctx, e, []*sdcpb.PathElem{}, r, tc)
 		if err != nil {
 			return nil, err
 		}
+		r.Update = append(r.Update, tc.Close()...)
 		result = append(result, r)
 	}
 
@@ -93,7 +96,7 @@ func (x *XML2sdcpbConfigAdapter) transformRecursive(ctx context.Context, e *etre
 	case *sdcpb.SchemaElem_Leaflist:
 		// retrieved schema describes a yang LeafList
 		log.Tracef("transforming leaflist %q", e.Tag)
-		err = x.transformLeafList(ctx, e, pelems, tc)
+		err = x.transformLeafList(ctx, e, pelems, sr.GetSchema().GetLeaflist(), tc)
 		if err != nil {
 			return err
 		}
@@ -123,7 +126,11 @@ func (x *XML2sdcpbConfigAdapter) transformContainer(ctx context.Context, e *etre
 		if cPElem[len(cPElem)-1].Key == nil {
 			cPElem[len(cPElem)-1].Key = map[string]string{}
 		}
-		cPElem[len(cPElem)-1].Key[ls.Name] = e.FindElement("./" + ls.Name).Text()
+		keyElem := e.FindElement("./" + ls.Name)
+		if keyElem == nil {
+			return fmt.Errorf("list entry %s is missing its key %s", e.GetPath(), ls.Name)
+		}
+		cPElem[len(cPElem)-1].Key[ls.Name] = keyElem.Text()
 	}
 
 	ntc := NewTransformationContext(cPElem)
@@ -191,14 +198,20 @@ func (x *XML2sdcpbConfigAdapter) transformField(ctx context.Context, e *etree.El
 // transformLeafList processes LeafList entries. These will be store in the TransformationContext.
 // A new TransformationContext is created when entering a new container. And the appropriate actions are taken when a container is exited.
 // Meaning the LeafLists will then be transformed into a single update with a sdcpb.TypedValue_LeaflistVal with all the values.
-func (x *XML2sdcpbConfigAdapter) transformLeafList(_ context.Context, e *etree.Element, pelems []*sdcpb.PathElem, tc *TransformationContext) error {
+func (x *XML2sdcpbConfigAdapter) transformLeafList(_ context.Context, e *etree.Element, pelems []*sdcpb.PathElem, lls *sdcpb.LeafListSchema, tc *TransformationContext) error {
+	if tc == nil {
+		return fmt.Errorf("leaf-list %s outside of a container", e.GetPath())
+	}
 
 	// process terminal values
 	data := strings.TrimSpace(e.Text())
 
-	typedval := &sdcpb.TypedValue{Value: &sdcpb.TypedValue_StringVal{StringVal: data}}
+	// the elements carry the type of the leaf-list, like a field does
+	typedval, err := utils.Convert(data, lls.GetType())
+	if err != nil {
+		return err
+	}
 
 	name := pelems[len(pelems)-1].Name
-	tc.AddLeafListEntry(name, typedval)
-	return nil
+	return tc.AddLeafListEntry(name, typedval)
 }
